@@ -1,6 +1,7 @@
 import QipVerif.Lemmas.RenderPrefix
 /-! C20: reading the boxed labels off a middle row (`labels_in_order`). -/
 namespace QipVerif.Render
+variable {v : Variant}
 
 /-! ## the reader: contents of `┤ … ├`, left to right -/
 
